@@ -41,6 +41,83 @@ def origin_keys(F, expr, dictvar, depth=0, seen=None):
     return keys, stripped
 
 
+def _complete_index(run, xi, it):
+    """The exporter looks the transitions of a state up in an index handed down by its caller: (True, None) when that index is a complete
+    grouping of the transitions of the chart by source, (False, reason) otherwise."""
+    prog = run.prog
+    X = xi.node
+    it = strip_cast(it)
+    cands = [it] + ([strip_cast(o) for o in q.local_origin(X, it)] if isinstance(it, ast.Name) else [])
+    pname = None
+    for v in cands:
+        if isinstance(v, ast.Call) and isinstance(v.func, ast.Attribute) and v.func.attr == 'get' and isinstance(v.func.value, ast.Name):
+            pname = v.func.value.id
+        elif isinstance(v, ast.Subscript) and isinstance(v.value, ast.Name):
+            pname = v.value.id
+    params = q.param_names(X)
+    if pname is None or pname not in params:
+        return False, None
+    pos = params.index(pname)
+    verdicts = []
+    for f in prog.functions():
+        for c in q.calls(f.node):
+            if not (isinstance(c.func, ast.Name) and c.func.id == xi.name):
+                continue
+            a = c.args[pos] if len(c.args) > pos else q.arg(c, None, pname)
+            if a is None:
+                return False, 'a caller does not pass the index'
+            a = strip_cast(a)
+            if f is xi and isinstance(a, ast.Name) and a.id == pname:
+                continue            # handed down unchanged to the children
+            for o in ([a] if not isinstance(a, ast.Name) else []) + [strip_cast(o) for o in q.local_origin(f.node, a)]:
+                verdicts.append(_grouping_verdict(run, f, a, o))
+    if not verdicts:
+        return False, 'no construction of the index found'
+    bad = [w for ok_, w in verdicts if not ok_]
+    return (not bad), (bad[0] if bad else None)
+
+
+def _grouping_verdict(run, f, name, o):
+    """o: expression the index is bound to in function f."""
+    if isinstance(o, ast.DictComp) and len(o.generators) == 1 and not o.generators[0].ifs:
+        g = o.generators[0]
+        src = strip_cast(g.iter)
+        if isinstance(src, ast.Call) and dotted(src.func) in ('groupby', 'itertools.groupby'):
+            seq = strip_cast(src.args[0]) if src.args else None
+            key = q.arg(src, 1, 'key')
+            if isinstance(seq, ast.Call) and dotted(seq.func) == 'sorted' and key is not None and q.arg(seq, None, 'key') is not None and \
+                    q.unparse(q.arg(seq, None, 'key')) == q.unparse(key):
+                return True, None
+            return False, 'itertools.groupby only groups adjacent items: unless the sequence is sorted by the same key, later runs of a source overwrite earlier ones'
+        if isinstance(strip_cast(o.value), ast.Call) and 'Statechart.transitions_from' in q.callee_shorts(run, strip_cast(o.value))[0] and \
+                isinstance(g.target, ast.Name) and q.unparse(o.key) == g.target.id and strip_cast(o.value).args and q.unparse(strip_cast(o.value).args[0]) == g.target.id:
+            return True, None
+        return False, 'index built by an unrecognised comprehension'
+    if isinstance(o, (ast.Dict, ast.Call)) and (isinstance(o, ast.Dict) and not o.keys or isinstance(o, ast.Call) and dotted(o.func) in (
+            'dict', 'defaultdict', 'collections.defaultdict', 'OrderedDict', 'collections.OrderedDict')):
+        # filled by a loop: every transition of the chart appended, unconditionally, under its source
+        if not isinstance(name, ast.Name):
+            return False, 'index built in place'
+        for lp in q.walk(f.node, False):
+            if not isinstance(lp, ast.For) or not isinstance(lp.target, ast.Name):
+                continue
+            srcs = [q.unparse(strip_cast(lp.iter))] + [q.unparse(strip_cast(x)) for x in q.local_origin(f.node, lp.iter)]
+            if not any(s_.endswith('.transitions') or s_.endswith('._transitions') for s_ in srcs):
+                continue
+            for c in q.calls(lp):
+                if isinstance(c.func, ast.Attribute) and c.func.attr == 'append' and c.args and q.unparse(c.args[0]) == lp.target.id and not guards(c, stop=lp):
+                    recv = strip_cast(c.func.value)
+                    lab = None
+                    if isinstance(recv, ast.Subscript) and q.unparse(recv.value) == name.id:
+                        lab = q.unparse(strip_cast(recv.slice))
+                    elif isinstance(recv, ast.Call) and isinstance(recv.func, ast.Attribute) and recv.func.attr == 'setdefault' and q.unparse(recv.func.value) == name.id and recv.args:
+                        lab = q.unparse(strip_cast(recv.args[0]))
+                    if lab in (lp.target.id + '.source', lp.target.id + '._source'):
+                        return True, None
+        return False, 'no loop files every transition of the chart under its source'
+    return False, 'index built in an unrecognised way'
+
+
 def io_names(run, r):
     """Local names of the exporter / importer, derived from structure (robust against renaming of locals)."""
     xi = run.fn('_export_state_to_dict')
@@ -65,10 +142,33 @@ def io_names(run, r):
     state_v = [st.targets[0].id for st in q.walk(X, False) if isinstance(st, ast.Assign) and isinstance(st.targets[0], ast.Name)
                and isinstance(strip_cast(st.value), ast.Call) and 'Statechart.state_for' in q.callee_shorts(run, strip_cast(st.value))[0]]
     run.anchor(len(state_v) == 1, r, 'local holding the exported state object')
-    trans_v = [lp.target.id for lp in q.walk(X, False) if isinstance(lp, ast.For) and isinstance(lp.target, ast.Name)
-               and any(isinstance(v, ast.Call) and 'Statechart.transitions_from' in q.callee_shorts(run, v)[0]
-                       for v in [strip_cast(lp.iter)] + [strip_cast(o) for o in q.local_origin(X, lp.iter)])]
-    run.anchor(len(trans_v) == 1, r, 'loop variable over the transitions of the exported state')
+    # the loop that builds one <tdata> per transition; what it runs over must be everything transitions_from(<state>) answers
+    t_loops = []
+    for st in q.walk(X, False):
+        if isinstance(st, ast.Assign) and isinstance(st.targets[0], ast.Name) and st.targets[0].id == tdata:
+            lp = q.enclosing(st, ast.For)
+            if lp is not None and isinstance(lp.target, ast.Name) and lp not in t_loops:
+                t_loops.append(lp)
+    run.anchor(len(t_loops) == 1, r, 'loop building one dict per transition of the exported state')
+    trans_v = [t_loops[0].target.id]
+    src = [strip_cast(t_loops[0].iter)] + [strip_cast(o) for o in q.local_origin(X, t_loops[0].iter)]
+    why_not = None
+    from_query = True
+    n_src = 0
+    for v in src:
+        if isinstance(v, ast.Name):
+            continue
+        n_src += 1
+        if isinstance(v, ast.Call) and 'Statechart.transitions_from' in q.callee_shorts(run, v)[0]:
+            continue
+        ok_, why_ = _complete_index(run, xi, v)       # every other source the loop may range over must be a complete by-source index
+        if not ok_:
+            from_query, why_not = False, why_
+    from_query = from_query and n_src >= 1
+    if r.startswith('C11'):
+      run.check(from_query, r, xi.short, 'the exported transitions of a state are those transitions_from(<state>) answers',
+                'the transitions written for a state come from %s: %s' % (q.unparse(t_loops[0].iter)[:60],
+                                                                       why_not or 'nothing guarantees that every transition leaving the state is among them'), t_loops[0])
     prio = None
     for v, node in keys_written(X, tdata).get('priority', []):
         if isinstance(v, ast.Name):
@@ -271,6 +371,9 @@ def import_maps(run, r):
                 cv = lp.target.id if lp is not None and isinstance(lp.target, ast.Name) else None
                 keys, stripped = origin_keys(F, c.args[0], cv) if cv else (set(), False)
                 at = guard_atoms(c, stop=lp)
+                # (a test on a local that holds <item>.get('key') counts as a test of that key)
+                at = [(a[0], q.unparse(q.local_origin(F, ast.Name(id=a[1], ctx=ast.Load()))[0]), a[2]) if a[1].isidentifier() and len(q.local_origin(F, ast.Name(id=a[1], ctx=ast.Load()))) == 1
+                      else a for a in at]
                 gk = {a[1].split("'")[1] for a in at if a[0] == 'truthy' and a[1].startswith(cv + '.get(') or a[0] == 'truthy' and a[1].startswith(cv + '[')} if cv else set()
                 for k in keys:
                     out['contract'].setdefault(k, set()).add(c.func.value.attr)
@@ -372,6 +475,11 @@ def rules_eq(run):
     run.check(attrs == ['action', 'event', 'guard', 'priority', 'source', 'target'] and any(
         isinstance(c.func, ast.Attribute) and c.func.attr == '__eq__' and dotted(c.func) == 'ContractMixin.__eq__' for c in q.calls(tr.node)), r, tr.short,
         'Transition equality covers source, target, event, guard, action, priority and the contract', 'covers %s' % attrs, tr.node)
+
+
+def guard_atoms_of(g):
+    from ..cfg import atoms as _atoms
+    return _atoms(g[0], g[1])
 
 
 def attr_of_local(F, name):
@@ -620,6 +728,11 @@ def check(run):
                 cvars = [next(iter(res[v])).upper() if v in res and names_ok else v for v in cvars]
             if not gl or not cvars:
                 run.ok(r2, 'exporter', 'the %s contract is written unconditionally' % lv_, node)
+                continue
+            stored_ = strip_cast(v_)
+            if isinstance(stored_, ast.Name) and [(a_[0], a_[1]) for g_ in gl for a_ in guard_atoms_of(g_)] == [('truthy', stored_.id)]:
+                # written when the list that was just built (every item of the three kinds, checked above) is non-empty: the same condition
+                run.ok(r2, 'exporter', 'the %s contract is written when the built list is non-empty' % lv_, node)
                 continue
             # the condition, over the three "list is non-empty" atoms, must be their disjunction
             idx = {v: i for i, v in enumerate(vs)}
